@@ -39,6 +39,7 @@ def injected (f : Option (Nat × FaultKind)) (k : Nat) : Option SqlErr :=
   | some (kf, .integrity) => if kf = k then some .integrity else none
   | some (kf, .interface) => if kf = k then some .interface else none
   | some (kf, .operational) => if kf = k then some .operational else none
+  | some (kf, .foreign) => if kf = k then some .foreign else none
   | some (kf, .exitBefore) => if kf = k then some .exit else none
   | _ => none
 
@@ -212,6 +213,7 @@ def finish (db : Db) (mem : Mem) (fault : Option (Nat × FaultKind)) (rw : Excep
   | .error .integrity => ⟨db, rw.2.mem, .parsingError, rw.2.n⟩
   | .error .interface => ⟨db, rw.2.mem, .parsingError, rw.2.n⟩
   | .error .operational => ⟨db, rw.2.mem, .otherError, rw.2.n⟩
+  | .error .foreign => ⟨db, rw.2.mem, .otherError, rw.2.n⟩
   | .error .exit => ⟨db, mem, .died, rw.2.n⟩
 
 lemma runOp_eq (db : Db) (mem : Mem) (op : Op) (fault : Option (Nat × FaultKind)) :
@@ -405,6 +407,7 @@ def outcomeOf : Except SqlErr Unit → Outcome
   | .error .integrity => .parsingError
   | .error .interface => .parsingError
   | .error .operational => .otherError
+  | .error .foreign => .otherError
   | .error .exit => .died
 
 /-- the fault-free call: the PRAGMA is statement 0, the body starts at counter 1 -/
